@@ -15,7 +15,7 @@ import numpy as onp
 ID = "C20"
 TITLE = "VTKWriter: every written file is structurally valid, round-trips the supplied data, rewrites identically"
 LEVEL = "model_checking"
-RULE = ("E-BFS: all sequences of writer calls (17-action alphabet: 7 nodal-field adds, 6 cell-field adds, add_sphere, "
+RULE = ("E-BFS: all sequences of writer calls (20-action alphabet: 9 nodal-field adds, 7 cell-field adds, add_sphere, "
         "add_contact_edges with 1 or 2 edges, write) up to the depth bound, per mesh, de-duplicated on canon = (ordered "
         "nodal fields, ordered cell fields, #spheres, #edges, #writes capped at 2, model state at the last write, "
         "last-action-is-write). A case = one canonical state whose last action is `write` (a file was produced and "
@@ -33,10 +33,12 @@ ASSUMPTIONS = [
 ]
 TOLERANCES = {"coordinates / field values": "exact (float repr round trip)", "file identity": "byte-identical"}
 
-NODAL = [("u", "S", "DOUBLE"), ("u", "S", "INT"), ("u", "V", "DOUBLE"), ("u", "T", "DOUBLE"),
-         ("v", "V", "FLOAT"), ("v", "T", "INT"), ("v", "S", "FLOAT")]
-CELL = [("c", "S", "DOUBLE"), ("c", "S", "INT"), ("c", "V", "DOUBLE"), ("c", "T", "DOUBLE"),
-        ("d", "V", "FLOAT"), ("d", "S", "INT")]
+# two names per section, every field type under both names with the same data type (so that e.g. a vector and a
+# tensor array of equal data type can coexist), plus other data types
+NODAL = [("u", "S", "DOUBLE"), ("u", "V", "DOUBLE"), ("u", "T", "DOUBLE"), ("u", "S", "INT"),
+         ("v", "S", "DOUBLE"), ("v", "V", "DOUBLE"), ("v", "T", "DOUBLE"), ("v", "V", "FLOAT"), ("v", "T", "INT")]
+CELL = [("c", "S", "DOUBLE"), ("c", "V", "DOUBLE"), ("c", "T", "DOUBLE"), ("c", "S", "INT"),
+        ("d", "V", "DOUBLE"), ("d", "T", "DOUBLE"), ("d", "S", "INT")]
 ACTIONS = (["N:%s:%s:%s" % a for a in NODAL] + ["C:%s:%s:%s" % a for a in CELL]
            + ["sphere", "edges1", "edges2", "write"])
 NCOMP = {"S": 1, "V": 3, "T": 9}
